@@ -266,6 +266,8 @@ impl MCOptimiser {
             // There is a limit to the usefulness though and 1e-4 has been good.
             if step_ratio > 1e-4 {
                 step_ratio *= self.inner_steps as f64 / (loop_rejections as f64 + 1.);
+                // The step size is adapted downwards only, never beyond the configured maximum
+                step_ratio = f64::min(step_ratio, 1.);
             }
         }
         debug!(
